@@ -765,7 +765,7 @@ fn lets_cases(r: &mut Rng, n: usize) -> Vec<Case> {
             ("J".into(), LE::Lit(LV::Arr(vec![ints(&[1]), ints(&[2, 3]), ints(&[4, 5, 6])]))),
             ("T".into(), LE::Lit(LV::Arr(vec![LV::Arr(vec![ints(&[1, 2]), ints(&[3])]), LV::Arr(vec![ints(&[4])])]))),
             ("X".into(), LE::Lit(LV::Arr(vec![ints(&[1, 2]), LV::Arr(vec![LV::S("a".into()), LV::S("b".into())])]))),
-            ("V".into(), LE::Lit(ints(&[7, 8, 9]))),
+            ("W".into(), LE::Lit(ints(&[7, 8, 9]))),
         ];
         let mut accs: Vec<(String, Vec<LE>)> = vec![];
         for (name, dims) in [("M", vec![2i64, 2]), ("J", vec![3, 1]), ("T", vec![2, 2, 2]), ("X", vec![2, 2])] {
@@ -778,8 +778,8 @@ fn lets_cases(r: &mut Rng, n: usize) -> Vec<Case> {
         }
         let i = |n: i64| LE::Lit(LV::I(n));
         for (n, ix) in [("J", vec![i(2), i(3)]), ("J", vec![i(2), i(2)]), ("J", vec![i(0), i(1)]), ("T", vec![i(1), i(1), i(0)]), ("T", vec![i(0), i(1), i(1)]), ("T", vec![i(1), i(0), i(0)]), ("T", vec![i(0), i(2), i(0)]),
-            ("M", vec![i(2), i(2)]), ("V", vec![i(0), i(0)]), ("V", vec![i(3), i(0)]), ("M", vec![i(0), i(0), i(0)]), ("T", vec![i(0), i(0), i(0), i(0)]), ("M", vec![i(1), i(1)]), ("X", vec![i(1), i(1)]), ("X", vec![i(0), i(1)]),
-            ("M", vec![LE::Call("len".into(), vec![LE::Var("V".into())]), i(0)]), ("T", vec![i(1)]), ("T", vec![i(1), i(0)])] {
+            ("M", vec![i(2), i(2)]), ("W", vec![i(0), i(0)]), ("W", vec![i(3), i(0)]), ("M", vec![i(0), i(0), i(0)]), ("T", vec![i(0), i(0), i(0), i(0)]), ("M", vec![i(1), i(1)]), ("X", vec![i(1), i(1)]), ("X", vec![i(0), i(1)]),
+            ("M", vec![LE::Call("len".into(), vec![LE::Var("W".into())]), i(0)]), ("T", vec![i(1)]), ("T", vec![i(1), i(0)])] {
             accs.push((n.to_string(), ix));
         }
         for (k, (n, ix)) in accs.into_iter().enumerate() {
